@@ -345,6 +345,52 @@ Section Scan.
   Definition prefix (init : T) (k : nat) : T := fold_left (fun t i => f t (m i)) (seq 0 k) init.
 End Scan.
 
+(* ---- the same protocol when the scan runs IN PLACE (d_first == first, which
+   parallel.h documents as allowed): one shared buffer; ScanBody::operator()
+   reads inputTmp = input[i] BEFORE output[i] = temp.  [wr temp x] is the value
+   stored by a final scan (exclusive: temp; inclusive lambda: f temp x). *)
+Section ScanInPlace.
+  Context {T : Type}.
+  Variable identity : T.
+  Variable f : T -> T -> T.
+  Variable wr : T -> T -> T.
+  Fixpoint ascan_range (final : bool) (idxs : list nat) (temp : T) (buf : nat -> T) : T * (nat -> T) :=
+    match idxs with
+    | [] => (temp, buf)
+    | i :: r =>
+        let x := buf i in                                     (* T inputTmp = input[i]; *)
+        let buf' := if final then upd i (wr temp x) buf else buf in
+        ascan_range final r (f temp x) buf'
+    end.
+  Definition acstep (st : list T * (nat -> T)) (op : scan_op) : list T * (nat -> T) :=
+    let '(sums, buf) := st in
+    match op with
+    | OSplit b c => (sums ++ [identity], buf)
+    | OPre b lo hi =>
+        let '(s, o) := ascan_range false (seq lo (hi - lo)) (nth b sums identity) buf in (set_nth b s sums, o)
+    | OFinal b lo hi =>
+        let '(s, o) := ascan_range true (seq lo (hi - lo)) (nth b sums identity) buf in (set_nth b s sums, o)
+    | ORevJoin b a => (set_nth b (f (nth a sums identity) (nth b sums identity)) sums, buf)
+    | OAssign b a => (set_nth b (nth a sums identity) sums, buf)
+    end.
+  Definition ascan_par (init : T) (ops : list scan_op) (buf0 : nat -> T) : T * (nat -> T) :=
+    let '(sums, buf) := fold_left acstep ops ([init], buf0) in (nth 0 sums identity, buf).
+
+  (* what the loop would do if input[i] were read AFTER the store (the temporary dropped): kept only to show
+     that the read-before-write order is what the in-place theorem rests on *)
+  Fixpoint ascan_range_read_after_write (idxs : list nat) (temp : T) (buf : nat -> T) : T * (nat -> T) :=
+    match idxs with
+    | [] => (temp, buf)
+    | i :: r => let buf' := upd i temp buf in ascan_range_read_after_write r (f temp (buf' i)) buf'
+    end.
+End ScanInPlace.
+
+(* exclusive_scan(Par, v.begin(), v.end(), v.begin(), init, f, identity) and inclusive_scan in place *)
+Definition excl_scan_inplace {T} (identity : T) (f : T -> T -> T) (xs : list T) (init : T) (ops : list scan_op) : T * (nat -> T) :=
+  ascan_par identity f (fun temp _ => temp) init ops (fun i => nth i xs identity).
+Definition incl_scan_inplace (xs : list Z) (ops : list scan_op) : Z * (nat -> Z) :=
+  ascan_par 0%Z Z.add (fun temp x => (temp + x)%Z) 0%Z ops (fun i => nth i xs 0%Z).
+
 (* details::ScanBody via exclusive_scan(Par, xs, out, init, f, identity): output[i] = temp *)
 Definition excl_scan_par {T} (identity : T) (f : T -> T -> T) (xs : list T) (init : T)
            (ops : list scan_op) (out0 : nat -> T) : T * (nat -> T) :=
